@@ -981,7 +981,13 @@ def run(tier):
                        "depthwise, fully connected, pooling) int16, all accelerators and memory modes) were "
                        "executed by the extracted Coq interpreter hw/NpuExec.v on random inputs and compared bit for bit (one step for padded "
                        "average pools) with the TFLite reference kernels evaluated on the source model. Networks using operators the "
-                       "interpreter or the reference does not model are skipped and counted." % programs,
+                       "interpreter or the reference does not model are skipped and counted. In addition the graph rewrites that replace "
+                       "source operators by other operators (dilated convolutions from space-to-batch form and by kernel widening, PAD "
+                       "splitting and PAD as concatenation, average pool and MEAN as convolutions, grouped and strided convolutions, PRELU, "
+                       "concatenation / split offsets, transposed convolution and SAME padding) are theorems of props/C01.v about "
+                       "model/Rewrites.v; the real rewrite functions are run on operators built by Vela's own reader and their decisions / "
+                       "results are compared with the extracted model or validated against the conditions of the theorems "
+                       "(rewrite_decision_correspondence)." % programs,
         "evaluations": len(results), "distinct_nontrivial": len(kinds),
         "rule": "distinct operator sequences among the executed networks; every executed network has at least one NPU operator",
         "programs_executed": programs, "rewrite_decision_correspondence": rw_cov, "skipped": dict(skipped), "over_time_budget": slow[:10], "samples": samples or [{"note": "none"}],
@@ -991,8 +997,8 @@ def run(tier):
                                  "tools/refnet.py: transcription of the TFLite reference kernels (conv, depthwise, fully connected, pooling, add, sub, mul, "
                                  "concatenation with scaling, pad, reshape, transpose, strided slice, relu)",
                                  "tools/tflsum.py"])
-    res.assumptions += ["sampled networks and inputs", "8-bit table-based activations and bilinear resize are executed only as the last operator of a network (one step allowed "
-                        "against the real function); softmax, 16-bit elementwise and table operators are not executed (parameter-level checks in C09/C19/C10)",
+    res.assumptions += ["sampled networks and inputs", "table-based activations, MEAN, softmax and bilinear resize are compared with one step of tolerance and only as the last operator of a network; "
+                        "LSTM and 16-bit table activations are not executed; the rewrite theorems model one spatial axis of values minus the zero point",
                         "the elementwise operand-scaling semantics of hw/NpuExec.v (input shift 20/15, 32-bit scaling of one operand with double "
                         "rounding, the other shifted one bit less; zero points and the 16-bit activation range not applied to 32-bit feature maps; "
                         "x2 nearest / zero-insertion resampling) is a reading of the hardware interface calibrated against the reference kernels"]
